@@ -20,6 +20,7 @@ load_*(json.loads(json.dumps(obj.to_json()))).
 import hashlib
 import json
 import math
+import os
 import warnings
 
 import numpy as np
@@ -36,7 +37,7 @@ QFLAV = ["uniform", "uniform", "discrete", "halves", "negative", "yyyymm", "clos
 CFLAV = ["letters", "letters", "rare", "numstr", "ints"]
 
 VALID_OPS = ["group", "group", "group", "nan_group", "group_fresh", "replace_fresh",
-             "replace_member", "noop_same"]
+             "replace_member", "noop_same", "group_new_name"]
 MALFORMED_OPS = ["typo", "kept_nan", "kept_fresh", "disc_member", "replace_leader",
                  "replace_foreign_member", "nan_literal", "nonadjacent", "into_nan",
                  "replace_unknown_disc", "group_down_mid"]
@@ -147,6 +148,10 @@ def resolve(ab, S):
             j = (i + 1 + b % (len(L) - 1)) % len(L)
             d, k = L[i], L[j]
         return ("group", d, k)
+    if op == "group_new_name":       # an existing group is grouped into a NEW name (appended last)
+        if quant:
+            return resolve(dict(ab, op="group"), S)
+        return ("group", L[a % len(L)], fresh_str(S, c))
     if op == "nan_group":
         return ("group", NAN, numL[a % len(numL)])
     if op == "group_fresh":
@@ -251,6 +256,10 @@ def classify(S, mode, d, k):
     gd = S.group_of(dd)
     if mode == "group":
         if not isin(k, L):
+            # a NEW kept name on a qualitative feature: appended as a new (last) group
+            if (not quant and isinstance(k, str) and not S.contains(k) and gd is not None
+                    and veq(gd, dd) and not C.is_nan(d)):
+                return "valid"
             return "malformed"
         if gd is not None and veq(gd, k):
             return "valid"                       # already there: warning, no-op
@@ -307,7 +316,21 @@ def gen_case17(rng, stream, cls=None, prefer=None):
              "cflavour": rng.choice(CFLAV), "nfeat": rng.choice([1, 2, 2, 3])}
     if prefer == "quant":
         force["kind"] = "quant"
+    if stream == "newname":
+        prefer = "qual"
+        if cls == "QuantitativeDiscretizer":
+            cls = "QualitativeDiscretizer"
+        force["kind"] = rng.choice(["cat", "ord"])
+        force["cflavour"] = rng.choice(["letters", "letters", "rare"])
     base = K.gen_case(rng, cls, force)
+    if stream == "newname":
+        # features WITH a separate '__NAN__' group (dropna=False) and, as control, without
+        base["params"]["dropna"] = rng.random() < 0.3
+        base["params"]["output_dtype"] = rng.choice(["str", "float"])
+        if rng.random() < 0.8:
+            for ft in base["features"]:
+                for i in range(rng.randrange(3), len(ft["values"]), rng.choice([4, 6, 9])):
+                    ft["values"][i] = ["nan"]
     if prefer == "quant":
         # carvers keep few groups: lower the bar so that several boundaries survive
         base["params"]["min_freq"] = rng.choice([0.05, 0.1, 0.15])
@@ -324,6 +347,10 @@ def gen_case17(rng, stream, cls=None, prefer=None):
     n = rng.randint(1, 8)
     if stream == "valid":
         plan = [abstract(rng, rng.choice(VALID_OPS)) for _ in range(n)]
+    elif stream == "newname":
+        plan = [abstract(rng, rng.choice(VALID_OPS)) for _ in range(rng.randint(0, 1))]
+        plan += [abstract(rng, rng.choice(["group_new_name", "group_new_name", "replace_fresh"]))]
+        plan += [abstract(rng, rng.choice(VALID_OPS)) for _ in range(rng.randint(0, 5))]
     elif stream == "nan_regroup":
         plan = [abstract(rng, rng.choice(VALID_OPS)) for _ in range(rng.randint(0, 3))]
         plan += [abstract(rng, "nan_group"), abstract(rng, "nan_regroup")]
@@ -395,8 +422,10 @@ def same_set(a, b):
 
 def state_json(ob, ctx):
     """the observation in the shape c04.oracle_c04 expects"""
+    keys = decs(ob["keys"])     # listed "str_nan last": the order in which the labels are built
+    keys = [k for k in keys if not veq(k, ctx["nan"])] + [k for k in keys if veq(k, ctx["nan"])]
     return {"name": ctx["feature"], "kind": "quant" if ctx["kind"] == "quant" else "qual",
-            "keys": ob["keys"], "content": ob["content"], "str_nan": ctx["nan"],
+            "keys": encs(keys), "content": ob["content"], "str_nan": ctx["nan"],
             "str_default": ctx["default"], "dropna": ob["dropna"], "odt": ctx["odt"], "lpv": ob["lpv"],
             "fmts": [[]], "strform": []}
 
@@ -413,14 +442,15 @@ def check_labels(S, ob, ctx):
                 return f"[labels] member {v!r} of group {k!r} is labelled {lv!r}, the group {lk!r}"
     if len(lpv) != len(S.values()):
         return "[labels] labels_per_values has entries that are not in the order"
-    labs = [lpv_get(lpv, k) for k in S.keys]
+    okeys = S.leaders() + ([S.nan] if isin(S.nan, S.keys) else [])   # labels are built "str_nan last"
+    labs = [lpv_get(lpv, k) for k in okeys]
     for i, a in enumerate(labs):
         if any(leq(a, b) for b in labs[:i]):
             return f"[labels] two groups share the label {a!r}"
         if ctx["odt"] == "float" and (isinstance(a, str) or a != i):
-            return f"[labels] float label of group #{i} is {a!r}"
-        if ctx["odt"] == "str" and ctx["kind"] != "quant" and not leq(a, S.keys[i]):
-            return f"[labels] qualitative group {S.keys[i]!r} is labelled {a!r}"
+            return f"[labels] float label of group {okeys[i]!r} (#{i}, missing values last) is {a!r}"
+        if ctx["odt"] == "str" and ctx["kind"] != "quant" and not leq(a, okeys[i]):
+            return f"[labels] qualitative group {okeys[i]!r} is labelled {a!r}"
     return None
 
 
@@ -481,8 +511,9 @@ def check_edit(before, ed, after, ctx, cells):
             return f"[effect] expected a completed edit, got {after['oc']}"
         if mode == "group":
             dgroup = B.members(dd) if B.is_leader(dd) else [dd]
-            exp_keys = [x for x in B.keys if not veq(x, dd)]
-            exp_k = list(dgroup) + list(B.members(k))
+            new_k = not B.is_leader(k)
+            exp_keys = [x for x in B.keys + ([k] if new_k else []) if not veq(x, dd)]
+            exp_k = list(dgroup) + ([k] if new_k else list(B.members(k)))
         else:
             exp_keys = [k if veq(x, dd) else x for x in B.keys]
             exp_k = list(B.members(dd)) if isin(k, B.members(dd)) else [k] + list(B.members(dd))
@@ -534,7 +565,8 @@ class C17(Prop):
                 "C17_transform_after_edit_qualitative", "C17_quantitative_upward_merge",
                 "C17_transform_after_edit_quantitative", "C17_downward_merge_refuted",
                 "C17_nan_regroup_refuted", "C17_rejected_edit_can_break_refuted",
-                "C17_valid_history_decidable_sound"]
+                "C17_valid_history_decidable_sound", "C17_valid_edit_effect",
+                "C17_new_name_with_nan_group"]
     rule = ("one case = one real fit (BinaryCarver / ContinuousCarver / Discretizer / Quantitative- / "
             "QualitativeDiscretizer; 40-200 rows, 1-3 quantitative / ordinal / categorical features, "
             "NaN share 0-30%, output_dtype str/float, dropna True/False, 15% rebuilt from JSON) + a "
@@ -568,6 +600,10 @@ class C17(Prop):
         import random
         rng = random.Random(1717)
         cs = []
+        # O50 (fixed by 1b184ac): group into a NEW name while '__NAN__' is its own group
+        f50 = os.path.join(C.VERIF, "corpus", "findings", "O50_c17_group_into_new_name_with_nan_group.json")
+        if os.path.exists(f50):
+            cs.append(json.load(open(f50))["case"])
         for stream, cls, prefer in [("valid", "Discretizer", None), ("valid", "BinaryCarver", "quant"),
                                     ("malformed", "ContinuousCarver", None)]:
             cs.append(gen_case17(rng, stream, cls, prefer))
@@ -578,8 +614,10 @@ class C17(Prop):
         cases = []
         for i in range(n):
             r = i % 20
-            if r < 11:
+            if r < 8:
                 stream = "valid"
+            elif r < 11:
+                stream = "newname"
             elif r < 13:
                 stream = "nan_regroup"
             elif r < 15:
@@ -602,7 +640,8 @@ class C17(Prop):
         names = [ft["name"] for ft in base["features"] if ft["name"] in obj.features]
         if not names:
             return {"skip": "every feature was dropped at fit"}
-        pref = [n for n in names if feature_kind(base, n) == case.get("prefer")] or names
+        want = {"qual": ("cat", "ord"), "quant": ("quant",)}.get(case.get("prefer"), ())
+        pref = [n for n in names if feature_kind(base, n) in want] or names
         f = pref[case["pick"] % len(pref)]
         kind = feature_kind(base, f)
         others = [n for n in names if n != f]
@@ -815,6 +854,10 @@ class C17(Prop):
         if ("[raised]" in msg and after["oc"] == "assert" and mode == "replace" and B.is_leader(dd)
                 and not veq(k, dd) and isin(k, B.members(dd))):
             sigs.append("replace_with_group_member")
+        A = PS.of_obs(after, ctx["nan"], ctx["kind"])
+        if (any(t in msg for t in ("[labels]", "[lookup]", "[rows]", "[json]", "[summary]"))
+                and isin(ctx["nan"], A.keys) and not veq(A.keys[-1], ctx["nan"])):
+            sigs.append("labels_misaligned_when_nan_group_not_last")
         if ("[summary] missing values" in msg and ctx["kind"] != "quant" and not ctx["global_dropna"]
                 and after["dropna"]):
             sigs.append("summary_ignores_nan_after_edit")
